@@ -71,7 +71,7 @@ def main():
     else:
         for d in sorted(os.listdir(f"{VERIF}/seeded")):
             p = f"{VERIF}/seeded/{d}"
-            if os.path.isdir(p) and args.only in d:
+            if os.path.isdir(p) and args.only in d and os.path.exists(f"{p}/meta.json"):
                 meta = json.load(open(f"{p}/meta.json"))
                 todo.append((d, f"{p}/patch.diff", meta.get("checks") or [meta["property"]]))
     shutil.rmtree(SCRATCH, ignore_errors=True)
